@@ -609,16 +609,16 @@ func genC34(g *Gen, idx int) *Plan {
 func init() {
 	Register(&Check{ID: "C10", Level: "fault_enumeration",
 		Rule:   "25 connect-exchange scripts (every prefix of CONNECT[will][AUTH][WILLTOPIC][WILLMSG], repeated CONNECT/AUTH/WILLTOPIC, a refused step: wildcard/QoS 3/empty WILLTOPIC, AUTH with another method, CONNECT with zero keep-alive or an unknown protocol id while an exchange is open) after which the peer is silent; complete scripts face a broker that never answers CONNECT; each script with seeded timing, link latency and yield sites; virtual-time deadline = last CONNECT + 5 s + 100 ms poll + 3 ms slack; non-trivial = session in which a CONNECT was consumed and no broker CONNACK arrived",
-		Gen:    genC10, Oracle: oracleC10, Quick: 500, Thorough: 15000})
+		Gen:    genC10, Oracle: oracleC10, Quick: 1000, Thorough: 60000})
 	Register(&Check{ID: "C13", Level: "fault_enumeration",
 		Rule:   "8 session scripts (unconnected, connecting, active idle, active with traffic and pending QoS 1/2 transactions, asleep, asleep with pinger, awake, back from sleep with CONNECT while QoS 0-2 messages wait in the buffer with retry timers of a few ms and a slow gateway) x 7 causes (gateway shutdown, plain DISCONNECT, broker FIN, broker RST, undecodable datagram, illegal packet, connect timeout) at a seeded instant; deadline = cause + 100 ms + 3 ms; DISCONNECT-to-client rule; goroutine census of gateway/transactions/util frames after final shutdown; non-trivial = a termination cause occurred",
-		Gen:    genC13, Oracle: oracleC13, Quick: 640, Thorough: 32000})
+		Gen:    genC13, Oracle: oracleC13, Quick: 1280, Thorough: 128000})
 	Register(&Check{ID: "C14", Level: "fault_enumeration",
 		Rule:   "same script x cause space as C13; an MQTT DISCONNECT on a session's broker stream must be the translation of a consumed plain MQTT-SN DISCONNECT; non-trivial = session ended or an MQTT DISCONNECT was written",
-		Gen:    func(g *Gen, idx int) *Plan { p := genC13(g, idx); p.Family = strings.Replace(p.Family, "C13", "C14", 1); return p }, Oracle: oracleC14, Quick: 640, Thorough: 32000})
+		Gen:    func(g *Gen, idx int) *Plan { p := genC13(g, idx); p.Family = strings.Replace(p.Family, "C13", "C14", 1); return p }, Oracle: oracleC14, Quick: 1280, Thorough: 128000})
 	Register(&Check{ID: "C34", Level: "fault_enumeration",
 		Rule:   "the C13 session scripts (plus: long sleep, then a short one announced while asleep) cut at a seeded event index after which the peer is silent forever; broker model enforces keep-alive (drops after 1.5 x KA without a packet) and drops connections without CONNECT after 5 s; keep-alive 3-12 s, sleeps 1-25 s; deadline by state: accept+5 s / last CONNECT+5 s before connecting, last activity + 1.5 KA active/awake, + announced sleep asleep, + 200 ms poll + 3 ms; non-trivial = every session",
-		Gen:    genC34, Oracle: oracleC34, Quick: 420, Thorough: 14000})
+		Gen:    genC34, Oracle: oracleC34, Quick: 840, Thorough: 56000})
 }
 
 // slack: the fixed timing tolerance plus the virtual time this run's scheduler let pass while
